@@ -774,8 +774,8 @@ class Metadata:
         """
         raw, unparsed = parse_email(data)
 
+        exceptions: list[Exception] = []
         if validate:
-            exceptions: list[Exception] = []
             for unparsed_key in unparsed:
                 if unparsed_key in _EMAIL_TO_RAW_MAPPING:
                     message = f"{unparsed_key!r} has invalid data"
@@ -783,15 +783,16 @@ class Metadata:
                     message = f"unrecognized field: {unparsed_key!r}"
                 exceptions.append(InvalidMetadata(unparsed_key, message))
 
-            if exceptions:
-                raise ExceptionGroup("unparsed", exceptions)
-
+        # Validate the parsed fields as well, so that one group names every
+        # offending field.
         try:
-            return cls.from_raw(raw, validate=validate)
+            ins = cls.from_raw(raw, validate=validate)
         except ExceptionGroup as exc_group:
-            raise ExceptionGroup(
-                "invalid or unparsed metadata", exc_group.exceptions
-            ) from None
+            exceptions.extend(exc_group.exceptions)
+
+        if exceptions:
+            raise ExceptionGroup("invalid or unparsed metadata", exceptions)
+        return ins
 
     metadata_version: _Validator[_MetadataVersion] = _Validator()
     """:external:ref:`core-metadata-metadata-version`
